@@ -4,7 +4,7 @@
 # runs the checks (quick) in an isolated output directory and expects every one of them to stay silent (exit 0).
 patch="$(realpath "$1")"; shift
 props=${@:-C01 C02 C03 C04 C05 C06 C07 C08 C09 C10 C11 C12 C13 C14 C15 C16 C17 C18 C19 C20}
-cd /verif && . scripts/goenv.sh
+ROOT="$(cd "$(dirname "$0")/.." && pwd)"; cd "$ROOT" && . scripts/goenv.sh
 wt=$(mktemp -d /tmp/rf.XXXXXX)
 git -C /repo worktree add -q --detach "$wt/repo" HEAD || exit 2
 trap 'git -C /repo worktree remove --force "$wt/repo" >/dev/null 2>&1; rm -rf "$wt"' EXIT
@@ -16,7 +16,7 @@ for p in $props; do
   if [ $code -ne 0 ]; then
     rc=1
     echo "ALARM $p exit=$code :: $(echo "$out" | grep -A1 -E '^(VIOLATION|CHECK-BROKEN)' | grep -E 'clause|CHECK-BROKEN' | head -2 | cut -c1-400)"
-    mkdir -p /verif/.work/refactor_alarms; cp "$wt"/out/replay/$p-* /verif/.work/refactor_alarms/ 2>/dev/null
+    mkdir -p "$ROOT"/.work/refactor_alarms; cp "$wt"/out/replay/$p-* "$ROOT"/.work/refactor_alarms/ 2>/dev/null
   else
     echo "silent $p"
   fi
